@@ -25,3 +25,5 @@ void __verif_check(int c){ if (!c) { printf("CHECK-FAILED\n"); fflush(stdout); _
 void __verif_native_assert(int c, const char *m){ if (!c) { printf("CHECK-FAILED %s\n", m); fflush(stdout); _Exit(1); } }
 void __verif_error_hook(void){ printf("cmac_error reached\n"); }
 unsigned long __verif_fork_u(unsigned long lo, unsigned long hi){ uint64_t v = next(); if (v < lo || v > hi) { fflush(stdout); _Exit(3); } return v; }
+double __verif_dyadic(unsigned long q, unsigned long bound){ double d = nondet_double(); double s = d; for (unsigned long i = 0; i < q; ++i) s *= 2.0; if (!(d >= 0 && s < (double)bound && s == (double)(unsigned long)s)) { fflush(stdout); _Exit(3); } return d; }
+void __verif_mark(unsigned long x){ (void)x; }
